@@ -1,2 +1,8 @@
 //! Reference models (DESIGN §3.7, Appendix A). No ruma code is used here.
 pub mod rpush;
+pub mod rauth;
+pub mod rb64;
+pub mod revent;
+pub mod rj;
+pub mod rsha;
+pub mod rsr2;
